@@ -174,31 +174,22 @@ end
 /-! ### `make_ir_for_query` and `frontend::parse` -/
 
 /-- The panic sites that inputs can reach (each with its witness in `Props/C10.lean`):
-N-2 (F-C10-2), N-6 (F-C10-6), N-4 (F-C10-4). -/
+N-6 (F-C10-6), N-4 (F-C10-4).  (N-2 / F-C10-2, `.enumArgument`, was the third until its repair.) -/
 def KnownSite (s : Site) : Prop :=
-  s = .enumArgument ∨ s = .oneOfListDepth ∨ s = .outputListDepth
+  s = .oneOfListDepth ∨ s = .outputListDepth
 
 instance (s : Site) : Decidable (KnownSite s) := by unfold KnownSite; infer_instance
 
-theorem KnownSite.of_fill {r re : Bool} {s : Site} (h : FillSite r re s) (hr : r = false) :
+theorem KnownSite.of_fill {r : Bool} {s : Site} (h : FillSite r s) (hr : r = false) :
     KnownSite s := by
   unfold KnownSite
-  rcases h with ((h | ⟨h, _⟩) | ⟨_, h⟩)
-  · exact Or.inr (Or.inl h)
+  rcases h with (h | ⟨_, h⟩)
   · exact Or.inl h
   · rw [hr] at h; cases h
 
 theorem sat_lift {α : Type} {K : Site → Prop} {x : FRes α} {Q : α → Prop} (h : Sat K x Q) :
     Sat K (FRes.lift x) Q := by
   cases x <;> exact h
-
-theorem fillSite_enum {r re : Bool} {s : Site} (h : FillSite r re s) (hs : s = .enumArgument) :
-    re = true := by
-  subst hs
-  rcases h with ((h | ⟨_, h⟩) | ⟨h, _⟩)
-  · cases h
-  · exact h
-  · cases h
 
 /-! ### the parse layer never builds a re-transform (fix of F-7) -/
 
@@ -317,12 +308,6 @@ theorem parseDocument_noRetr {doc : Doc} {q : Query} (h : parseDocument doc = .o
     subst h
     exact makeFieldNode_noRetr hn
 
-/-- `KnownSite`; N-2 only when some field has an enum literal among its arguments. -/
-def RootKnown (q : Query) (s : Site) : Prop :=
-  KnownSite s ∧
-    (s = .enumArgument →
-      argsHaveEnum q.rootConnection.arguments = true ∨ hasEnumNode q.rootField = true)
-
 theorem errorsInto_sat {K : Site → Prop} {es : List FrontErr} (h : es ≠ []) :
     Sat K (errorsInto es) (fun _ => True) := by
   unfold errorsInto
@@ -340,7 +325,7 @@ theorem duplicateRefs_subset (outs : List (String × FieldRefM)) :
 theorem makeIrForQuery_sat {S : SchemaView} (hS : ValidSchemaView S) {q : Query}
     (hwf : q.rootConnection.name = q.rootField.name ∧ q.rootConnection.alias = q.rootField.alias ∧
       WFNode q.rootField) (hnoretr : hasRetrNode q.rootField = false) :
-    Sat (RootKnown q) (makeIrForQuery S q) (fun _ => True) := by
+    Sat KnownSite (makeIrForQuery S q) (fun _ => True) := by
   unfold makeIrForQuery
   have hval := validateField_sat S q.rootField S.queryType 0 q.rootConnection hwf.1 hwf.2.1 hwf.2.2
   unfold validateQuery
@@ -381,7 +366,7 @@ theorem makeIrForQuery_sat {S : SchemaView} (hS : ValidSchemaView S) {q : Query}
     simp only [FRes.lift, bind_ok]
     refine Sat.bind (sat_lift ((makeEdgeParameters_sat fd q.rootConnection.arguments
       (hS.paramsDistinct qt hqtmem fd hfdmem)).monoK
-      (fun s h => ⟨Or.inl h.1, fun _ => Or.inl h.2⟩)))
+      (fun s h => h.elim)))
       fun paramErrs _ => ?_
     -- the root component
     have hpostvt : S.isVertexType (q.rootField.coercedTo.getD fd.ty.base) = true := by
@@ -403,25 +388,18 @@ theorem makeIrForQuery_sat {S : SchemaView} (hS : ValidSchemaView S) {q : Query}
        by simp [CD.empty]⟩
     refine Sat.bind (sat_lift ((fillNode_sat hS q.rootField 1 fd.ty.base _ st1 CD.empty hinv1 hout1
       hempty (by simp [CD.empty]) (by simp [st1, St.outputsBeginSubcomponent]) hpostvt rfl
-      hsubvalid).monoK (fun _ h => ⟨KnownSite.of_fill h hnoretr,
-        fun h' => Or.inr (fillSite_enum h h')⟩)))
+      hsubvalid).monoK (fun _ h => KnownSite.of_fill h hnoretr)))
       fun r hr => ?_
     obtain ⟨hpost, _⟩ := hr
     have hout_r : 0 < r.1.outStack.length := Nat.lt_of_lt_of_le hout1 hpost.step.outLen
-    have hflag : EdgesFlag (hasEnumNode q.rootField) r.2.1 := by
-      intro e he
-      rcases hpost.flag e he with h | h
-      · simp [CD.empty] at h
-      · exact h
     have htopc : r.2.2 = [] → ∀ o ∈ r.1.topMap, o.2.vid ∈ cdVids r.2.1 := by
       intro h0 o ho
       rcases (hpost.tops h0).2 o ho with h | h
       · simp [St.topMap, st1, St.outputsBeginSubcomponent] at h
       · exact h
     refine Sat.bind (sat_lift ((componentPost_sat hS hpost.step.inv hout_r hpost.cdInv r.2.2
-      hflag htopc).monoK
-      (fun _ h => ⟨KnownSite.of_fill (r := false) (Or.inl h) rfl,
-        fun h' => Or.inr (fillSite_enum (r := false) (Or.inl h) h')⟩)))
+      htopc).monoK
+      (fun _ h => KnownSite.of_fill (r := false) (Or.inl h) rfl)))
       fun c hc => ?_
     obtain ⟨_, _, hc_vs, _, _, _, hc_go, _, hc_err, hc_ok⟩ := hc
     split
@@ -463,7 +441,7 @@ theorem makeIrForQuery_sat {S : SchemaView} (hS : ValidSchemaView S) {q : Query}
           simp only [List.isEmpty_nil, Bool.not_true, Bool.false_eq_true, ↓reduceIte]
           split
           · trivial
-          · exact ⟨Or.inr (Or.inr rfl), fun h => (by cases h)⟩
+          · exact Or.inr rfl
         · have : (!errors.isEmpty) = true := by simpa using hE
           rw [if_pos this]
           exact errorsInto_sat hE
@@ -487,24 +465,19 @@ theorem compile_panic_known {S : SchemaView} (hS : ValidSchemaView S) {doc : Doc
   | ok q =>
     rw [hp] at hpanic
     exact Or.inl ((makeIrForQuery_sat hS (parseDocument_wf hp)
-      (parseDocument_noRetr hp)).panic_site hpanic).1
+      (parseDocument_noRetr hp)).panic_site hpanic)
 
-/-- N-2 only if some field of the query has an enum literal among its arguments. -/
-theorem compile_enumArgument {S : SchemaView} (hS : ValidSchemaView S) {doc : Doc}
-    (hpanic : compile S doc = .panic .enumArgument) :
-    ∃ q, parseDocument doc = .ok q ∧
-      (argsHaveEnum q.rootConnection.arguments = true ∨ hasEnumNode q.rootField = true) := by
-  unfold compile at hpanic
-  cases hp : parseDocument doc with
-  | panic s' =>
-    rw [hp] at hpanic
-    cases hpanic
-    have := tryGetQueryRoot_panic (parseDocument_panic hp)
-    rcases this.2 with ⟨h, _⟩ | ⟨h, _⟩ <;> cases h
-  | err e => rw [hp] at hpanic; cases hpanic
-  | ok q =>
-    rw [hp] at hpanic
-    exact ⟨q, rfl, ((makeIrForQuery_sat hS (parseDocument_wf hp)
-      (parseDocument_noRetr hp)).panic_site hpanic).2 rfl⟩
+/-- The site of N-2 / F-C10-2 (`unimplemented!` on an enum-valued edge argument) is unreachable
+after its repair — on every document, producible by the text parser or not.  (History: the theorem
+here was `compile_enumArgument`: the site fires only if some field has an enum literal among its
+arguments.) -/
+theorem compile_not_enumArgument {S : SchemaView} (hS : ValidSchemaView S) {doc : Doc} :
+    compile S doc ≠ .panic .enumArgument := by
+  intro hpanic
+  rcases compile_panic_known hS hpanic with h | h | h
+  · unfold KnownSite at h
+    rcases h with h | h <;> cases h
+  · cases h
+  · cases h
 
 end TF.FE
